@@ -192,10 +192,24 @@ Inductive pval :=
 | POther.                      (* nil bool map bytes ... *)
 
 Inductive idstate := IdAbsent | IdValid | IdBadString | IdNotString.
-Record point := mkPt { pt_id : idstate; pt_vals : list (string * pval); pt_size : Z }.
+(* pt_vals: per index property, what the walk along the dotted name finds (split on ".", descend through
+   maps): this is how msgpack's Decoder.Query -- the dispatcher of the shard -- resolves the property in the
+   stored bytes.  pt_literal: for dotted index properties, the value (if any) that sits in the ROOT map
+   under a key literally equal to the whole property name, e.g. the key "geo.vec" next to {"geo": {...}};
+   the dispatcher never looks at it. *)
+Record point := mkPt { pt_id : idstate; pt_vals : list (string * pval); pt_size : Z;
+                       pt_literal : list (string * pval) }.
 
+(* the value the dispatcher reaches *)
 Definition pval_of (name : string) (p : point) : pval :=
   match lookup name (pt_vals p) with Some v => v | None => PAbsent end.
+
+(* the value CheckCompatibleMap validates.  It resolves the property by the same nested walk
+   (ccm_resolves_by_nested_walk, read off the source by the translator); if it does anything else the
+   model assumes the cheapest deviation, a lookup of the literal root key first *)
+Definition ccm_value (name : string) (p : point) : pval :=
+  if ccm_resolves_by_nested_walk then pval_of name p
+  else match lookup name (pt_literal p) with Some v => v | None => pval_of name p end.
 
 Definition check_prop (iv : ivalue) (pv : pval) : bool :=
   match pv with
@@ -224,13 +238,13 @@ Definition check_prop (iv : ivalue) (pv : pval) : bool :=
   end.
 
 Definition check_compatible (s : ischema) (p : point) : bool :=
-  forallb (fun kv => check_prop (snd kv) (pval_of (fst kv) p)) s.
+  forallb (fun kv => check_prop (snd kv) (ccm_value (fst kv) p)) s.
 
 (* write path: (index dimension, vector length) pairs handed to a vector store, hence to a
    distance function: getOperation -> castDataToArray -> InsertUpdateDelete *)
 Definition write_reach (s : ischema) (p : point) : list (Z * Z) :=
   flat_map (fun kv =>
-    match dim_of (snd kv), pval_of (fst kv) p with
+    match dim_of (snd kv), (if dispatch_resolves_by_query then pval_of (fst kv) p else POther) with
     | Some d, PArr n _ _ => [(d, n)]
     | _, _ => []
     end) s.
